@@ -169,7 +169,37 @@ def scan_sites():
                         continue  # prefix_clause itself (translated above)
                     if re.search(r"\b(LIKE|GLOB)\b", txt) and re.search(r"[=<>?']", txt):
                         raise TranslatorError(f"{rel}:{node.lineno}: unrecognised LIKE/GLOB use: {txt[:80]!r}")
-    # the range SQL texts: every `>= ? AND ... < ?` on labels
+    # The range SQL texts: a comparison of a label column with a bound must have the half-open
+    # shape `label >= lo AND label < hi`; BETWEEN, `<=`, `>` on labels are not prefix selections.
+    nrange = 0
+    for path in sorted((REPO / CORE).glob("*.py")):
+        if path.name in ("browse.py",):
+            continue
+        rel = f"{CORE}/{path.name}"
+        tree = parse_module(rel)
+        for node in ast.walk(tree):
+            if not (isinstance(node, ast.Constant) and isinstance(node.value, str)):
+                continue
+            txt = node.value
+            if len(txt) > 3000 and "\n\n" in txt and "SELECT" not in txt.upper():
+                continue
+            sql_lines = "\n".join(l for l in txt.splitlines() if not l.strip().startswith("--"))
+            if not re.search(r"\blabel\b", sql_lines):
+                continue
+            if re.search(r"\blabel\s+(NOT\s+)?BETWEEN\b", sql_lines, re.I) or \
+               re.search(r"\blabel\s*(<=|>)(?!=)", sql_lines):
+                raise TranslatorError(f"{rel}:{node.lineno}: label compared with BETWEEN / <= / >: not a half-open prefix range")
+            for m in re.finditer(r"((?:\w+\.)?label)\s*>=\s*(\S+)", sql_lines):
+                tail = sql_lines[m.end():m.end() + 120]
+                if not re.match(r"\s*(?:\n\s*)?AND\s+" + re.escape(m.group(1)) + r"\s*<\s*(?!=)\S+", tail):
+                    raise TranslatorError(f"{rel}:{node.lineno}: `label >= lo` without the matching `AND label < hi`")
+                nrange += 1
+            for m in re.finditer(r"((?:\w+\.)?label)\s*<\s*(?!=)\S+", sql_lines):
+                head = sql_lines[max(0, m.start() - 120):m.start()]
+                if not re.search(re.escape(m.group(1)) + r"\s*>=\s*\S+\s*(?:\n\s*)?AND\s*$", head):
+                    raise TranslatorError(f"{rel}:{node.lineno}: `label < hi` without the matching `label >= lo AND`")
+    if nrange < 3:
+        raise TranslatorError(f"expected at least 3 half-open label ranges in SQL texts, found {nrange}")
     return sites
 
 
